@@ -128,6 +128,45 @@ Proof.
     + intros a Ha Hb. apply filter_In in Hb as [Hb _]. apply Asub in Hb as [_ Hb]. contradiction.
 Qed.
 
+
+(* the same from a base with the same members in another order *)
+Definition sresb (xb xs ys : list atom) : list atom :=
+  filter (fun a => negb (mem_atom a (sremoved xs ys))) (xb ++ filter (fun a => negb (mem_atom a xb)) (sadded xs ys)).
+
+Lemma sresb_spec xb xs ys : nodup_atoms xb = true -> (forall z, In z xb <-> In z xs) ->
+  nodup_atoms ys = true -> alias_free (xs ++ ys) ->
+  (forall z, In z (sresb xb xs ys) <-> In z ys) /\ NoDup (sresb xb xs ys).
+Proof.
+  intros Nb EQ Ny AF.
+  assert (Ix : forall a, In a xb -> In a (xs ++ ys)) by (intros a Ha; apply in_or_app; left; apply EQ; exact Ha).
+  assert (Iy : forall a, In a ys -> In a (xs ++ ys)) by (intros; apply in_or_app; right; assumption).
+  assert (Rsub : forall b, In b (sremoved xs ys) -> In b xb /\ ~ In b ys).
+  { intros b Hb. apply filter_In in Hb as [H1 H2]. apply negb_true_iff in H2. apply has_atom_false in H2. split; [apply EQ; exact H1|exact H2]. }
+  assert (Asub : forall b, In b (sadded xs ys) -> In b ys /\ ~ In b xb).
+  { intros b Hb. apply filter_In in Hb as [H1 H2]. apply negb_true_iff in H2. apply has_atom_false in H2. split; [exact H1|]. intros Hx. apply H2. apply EQ. exact Hx. }
+  split.
+  - intros z. unfold sresb. rewrite filter_In, in_app_iff, filter_In. split.
+    + intros [[Hz|[Hz _]] Nm]; [|apply Asub in Hz as [Hz _]; exact Hz].
+      apply negb_true_iff in Nm. destruct (has_atom z ys) eqn:Hy; [apply has_atom_In; exact Hy|].
+      exfalso. assert (In z (sremoved xs ys)) by (apply filter_In; split; [apply EQ; exact Hz|rewrite Hy; reflexivity]).
+      assert (mem_atom z (sremoved xs ys) = true) by (apply mem_atom_In; exists z; split; [assumption|apply py_eq_refl]). congruence.
+    + intros Hz. assert (NR : mem_atom z (sremoved xs ys) = false).
+      { destruct (mem_atom z (sremoved xs ys)) eqn:M; [|reflexivity]. exfalso.
+        apply (mem_alias (xs ++ ys) z) in M; [|exact AF|apply Iy; exact Hz|intros b Hb; apply Ix; apply Rsub; exact Hb].
+        apply Rsub in M as [_ M]. contradiction. }
+      rewrite NR. split; [|reflexivity]. destruct (has_atom z xb) eqn:Hx.
+      * left. apply has_atom_In. exact Hx.
+      * right. split; [apply filter_In; split; [exact Hz|]|].
+        -- apply negb_true_iff. apply has_atom_false. apply has_atom_false in Hx. intros H0. apply Hx. apply EQ. exact H0.
+        -- apply negb_true_iff. destruct (mem_atom z xb) eqn:M; [|reflexivity]. exfalso.
+           apply (mem_alias (xs ++ ys) z) in M; [|exact AF|apply Iy; exact Hz|exact Ix].
+           apply has_atom_false in Hx. contradiction.
+  - unfold sresb. apply NoDup_filter. apply NoDup_app'.
+    + apply nodup_NoDup'. exact Nb.
+    + apply NoDup_filter. unfold sadded. apply NoDup_filter. apply nodup_NoDup'. exact Ny.
+    + intros a Ha Hb. apply filter_In in Hb as [Hb _]. apply Asub in Hb as [_ Hb]. contradiction.
+Qed.
+
 End Sets.
 
 Lemma flat_map_nil_in {A B} (f : A -> list B) l : (forall x, In x l -> f x = []) -> flat_map f l = [].
@@ -180,6 +219,14 @@ Qed.
 Lemma filter_not_mem_nil (l : list atom) : filter (fun a => negb (mem_atom a [])) l = l.
 Proof. apply filter_all. intros; reflexivity. Qed.
 
+Lemma veqb_set_inv fr v xs : veqb v (sv fr xs) = true -> exists xb, v = sv fr xb /\ length xb = length xs /\
+  (forall z, In z xb -> In z xs) /\ (forall z, In z xs -> In z xb).
+Proof.
+  destruct fr, v; cbn; try discriminate; intros V; apply andb_true_iff in V as [V V3]; apply andb_true_iff in V as [V1 V2]; apply Nat.eqb_eq in V1;
+    (eexists; split; [reflexivity|]; split; [exact V1|]; split; intros z Hz;
+     [eapply forallb_forall in V2; [|exact Hz]; apply has_atom_In; exact V2|eapply forallb_forall in V3; [|exact Hz]; apply has_atom_In; exact V3]).
+Qed.
+
 Theorem Good_set fr xs ys q :
   nodup_atoms xs = true -> nodup_atoms ys = true -> alias_free (xs ++ ys) ->
   Good (sv fr xs) (sv fr ys) q.
@@ -193,20 +240,23 @@ Proof.
   rewrite mutual_id by (intros a r Ha _ Ka _; apply in_app_or in Ha as [Ha|Ha]; apply in_map_iff in Ha as (x & <- & _); discriminate).
   destruct (set_delta T1 T2 q (sadded xs ys) (sremoved xs ys)) as (E1 & E2 & E3 & E4 & E5 & E6 & E7 & E8 & E9 & E10).
   set (d := to_delta conv bidir always ops T1 T2 (map (addE q) (sadded xs ys) ++ map (remE q) (sremoved xs ys)) []) in *.
-  destruct (sres_spec xs ys Nx Ny AF) as [Hin Hnd].
-  assert (RUN : irun conv bidir (map (istrip (length q)) (p1 d ++ p2 d ++ p3 d ++ p4 d ++ p5 d)) (mkSt (sv fr xs) [] 0)
-                = mkSt (sv fr (sres xs ys)) [] 0).
+  split; [exact E7|]. intros v Wv Vv _.
+  apply veqb_set_inv in Vv as (xb & -> & Lb & I1 & I2).
+  assert (Nb : nodup_atoms xb = true) by (destruct fr; exact Wv).
+  destruct (sresb_spec xb xs ys Nb (fun z => conj (I1 z) (I2 z)) Ny AF) as [Hin Hnd].
+  assert (RUN : irun conv bidir (map (istrip (length q)) (p1 d ++ p2 d ++ p3 d ++ p4 d ++ p5 d)) (mkSt (sv fr xb) [] 0)
+                = mkSt (sv fr (sresb xb xs ys)) [] 0).
   { unfold p1, p2, p3, p4, p5. rewrite E1, E2, E8, E9, E10. cbn [map app].
-    unfold sres. destruct (sadded xs ys) as [|a A] eqn:EA; destruct (sremoved xs ys) as [|r R] eqn:ER; unfold istrip; cbn [map app imap]; rewrite ?skipn_npath_self.
+    unfold sresb. destruct (sadded xs ys) as [|a A] eqn:EA; destruct (sremoved xs ys) as [|r R] eqn:ER; unfold istrip; cbn [map app imap]; rewrite ?skipn_npath_self.
     - cbn. rewrite app_nil_r, filter_not_mem_nil. reflexivity.
     - destruct fr; cbn; rewrite app_nil_r; reflexivity.
     - destruct fr; cbn; rewrite filter_not_mem_nil; reflexivity.
     - destruct fr; cbn; reflexivity. }
-  apply GoodD_inplace; try assumption.
+  apply runs_inplace; try assumption.
   - rewrite RUN. unfold finish. reflexivity.
   - rewrite RUN. unfold finish. cbn [post map irun fold_left root].
-    assert (V : Nat.eqb (length (sres xs ys)) (length ys) && forallb (fun x => has_atom x ys) (sres xs ys)
-                && forallb (fun y => has_atom y (sres xs ys)) ys = true).
+    assert (V : Nat.eqb (length (sresb xb xs ys)) (length ys) && forallb (fun x => has_atom x ys) (sresb xb xs ys)
+                && forallb (fun y => has_atom y (sresb xb xs ys)) ys = true).
     { apply andb_true_iff. split; [apply andb_true_iff; split|].
       - apply Nat.eqb_eq. apply Permutation_length. apply NoDup_Permutation; [exact Hnd|apply nodup_NoDup'; exact Ny|exact Hin].
       - apply forallb_forall. intros x Hx. apply has_atom_In. apply Hin. exact Hx.
